@@ -30,6 +30,8 @@ func init() {
 			{Name: "surface-a2", Run: supervised(runSurfaceClass("a2"))},
 			{Name: "surface-a34", Run: supervised(runSurfaceClass("a34")), ThoroughOnly: true},
 			{Name: "bridge", Run: supervised(runBridge)},
+			{Name: "history", Run: supervised(runHistory)},
+			{Name: "structured", Run: supervised(runStructured)},
 			{Name: "bytes", Run: supervised(runBytes)},
 			{Name: "tokens", Run: supervised(runTokens)},
 			{Name: "recursion", Run: supervised(runRecursion)},
